@@ -147,6 +147,20 @@ def _chunk(item):
                     bad("hash", sa, sb, "equal values hash differently", (hash(A), hash(B)))
             except Exception as e:
                 bad("hash", sa, sb, "raised", short_exc(e))
+            # ---- hash of an object whose fields are assigned after it was hashed, and of a modified copy of a hashed object ----
+            n += 1
+            try:
+                C = Prefixed(number=Decimal(ma), prefix=pa)
+                hash(C)
+                D = C.model_copy() if hasattr(C, "model_copy") else C.copy()
+                C.number, C.prefix = Decimal(mb), pb
+                D.prefix, D.number = pb, Decimal(mb)
+                for how, X in (("assigned", C), ("copied then assigned", D)):
+                    if not (X == B) or hash(X) != hash(B):
+                        bad("hash_mut", sa, sb, f"an object {how} the value of b is not equal to b, or hashes differently", (X == B, hash(X), hash(B)))
+                outcomes.add("hash_mut:ok")
+            except Exception as e:
+                bad("hash_mut", sa, sb, "raised", short_exc(e))
     return n, outcomes, viol
 
 
